@@ -1947,8 +1947,8 @@ static void MPSreadBounds(MPSInput& mps, LPColSetBase<R>& cset, const NameSet& c
             else
                val = atof(mps.field4());
 
-            // ILOG extension (Integer Bound)
-            if(mps.field1()[1] == 'I')
+            // ILOG extension (Integer Bound); "MI" is the ordinary bound type for a lower bound of minus infinity
+            if(!strcmp(mps.field1(), "LI") || !strcmp(mps.field1(), "UI"))
             {
                if(intvars != nullptr)
                   intvars->addIdx(idx);
